@@ -97,10 +97,17 @@ pub fn run(ctx: &mut Ctx) {
         let model = GraphModel(Arc::new(g));
         case.sample(|| model.summary());
         let mut long_discovery = false;
+        let maxd = reach.dist.iter().filter(|d| **d != u32::MAX).max().copied().unwrap_or(0) as usize;
         for strategy in [Strategy::Bfs, Strategy::Dfs, Strategy::OnDemand] {
             let threads = *case.rng.pick(&[1usize, 1, 2, 4]);
             let finish_when = gen_finish_when(&mut case.rng, model.props.len());
-            let cfg = RunCfg { threads, visitor: 0, finish_when, ..RunCfg::default() };
+            // one run in five is cut by a depth limit: whatever is still reported must be a
+            // genuine witness (a depth cut is not the end of a maximal path)
+            let target_max_depth = if case.rng.pct(20) { Some(case.rng.range(1, maxd + 2)) } else { None };
+            if target_max_depth.is_some() {
+                case.add("runs_with_depth_limit", 1);
+            }
+            let cfg = RunCfg { threads, visitor: 0, finish_when, target_max_depth, ..RunCfg::default() };
             let out = run_checker(&model, strategy, &cfg, false);
             case.add(&format!("runs_{}", strategy.name()), 1);
             long_discovery |= out.discoveries.values().any(|p| p.len() >= 2);
